@@ -261,6 +261,13 @@ func (r *Roles) resolveTags(p *an.Prog) {
 			names, ok := constStrings(args[1])
 			comp := funcValue(args[2])
 			if !ok || comp == nil {
+				// registration from a table: for _, t := range []struct{name; compiler}{...} { AddTag(t.name, t.compiler) }
+				if rows := tableRows(args[1], args[2]); len(rows) > 0 {
+					for _, row := range rows {
+						r.Tags = append(r.Tags, &Tag{Name: row.name, Compiler: row.fn, Renderer: returnedClosure(row.fn), Pos: ci.Pos()})
+					}
+					return
+				}
 				r.problem("AddTag not resolved at %s", p.Pos(ci.Pos()))
 				return
 			}
@@ -593,4 +600,108 @@ func eachCallInUnit(p *an.Prog, fn *ssa.Function, f func(ssa.CallInstruction)) {
 	for _, u := range unitWithHelpers(p, fn) {
 		an.EachCall(u, f)
 	}
+}
+
+type tableRow struct {
+	name string
+	fn   *ssa.Function
+}
+
+// tableRows: nameArg and fnArg are two fields of the element of a range over a slice literal of
+// structs; the rows of the literal, each with a constant name and a function, are returned.
+func tableRows(nameArg, fnArg ssa.Value) []tableRow {
+	elemField := func(v ssa.Value) (*ssa.Alloc, int, bool) {
+		// v = *(&elem.field) or Field(elemValue, k), with elem = literal[rangeindex]
+		v = an.Strip(v)
+		var base ssa.Value
+		field := -1
+		switch x := v.(type) {
+		case *ssa.UnOp:
+			if fa, ok := x.X.(*ssa.FieldAddr); ok {
+				base, field = fa.X, fa.Field
+			}
+		case *ssa.Field:
+			base, field = x.X, x.Field
+		}
+		if base == nil {
+			return nil, 0, false
+		}
+		// the element: a local copy of literal[i], or &literal[i], or the loaded value
+		for _, o := range an.Origins(base, func(v ssa.Value) []ssa.Value {
+			if al, ok := v.(*ssa.Alloc); ok {
+				return an.Stores(al)
+			}
+			return an.StepValue(v)
+		}) {
+			var ia *ssa.IndexAddr
+			switch y := o.(type) {
+			case *ssa.IndexAddr:
+				ia = y
+			case *ssa.UnOp:
+				if z, ok := y.X.(*ssa.IndexAddr); ok {
+					ia = z
+				}
+			}
+			if ia == nil || !isForwardRangeIndex(ia.Index) {
+				continue
+			}
+			if sl, ok := ia.X.(*ssa.Slice); ok {
+				if al, ok := sl.X.(*ssa.Alloc); ok {
+					return al, field, true
+				}
+			}
+		}
+		return nil, 0, false
+	}
+	lit, nameField, ok1 := elemField(nameArg)
+	lit2, fnField, ok2 := elemField(fnArg)
+	if !ok1 || !ok2 || lit != lit2 || lit.Referrers() == nil {
+		return nil
+	}
+	byRow := map[int64]*tableRow{}
+	complete := true
+	for _, u := range *lit.Referrers() {
+		ia, ok := u.(*ssa.IndexAddr)
+		if !ok || ia.Referrers() == nil {
+			continue
+		}
+		k, isC := an.ConstInt(ia.Index)
+		if !isC {
+			complete = false
+			continue
+		}
+		for _, uu := range *ia.Referrers() {
+			fa, ok := uu.(*ssa.FieldAddr)
+			if !ok {
+				continue
+			}
+			for _, sv := range an.Stores(fa) {
+				row := byRow[k]
+				if row == nil {
+					row = &tableRow{}
+					byRow[k] = row
+				}
+				switch fa.Field {
+				case nameField:
+					if n, ok := an.ConstString(sv); ok {
+						row.name = n
+					}
+				case fnField:
+					row.fn = funcValue(sv)
+				}
+			}
+		}
+	}
+	if !complete {
+		return nil
+	}
+	var out []tableRow
+	for k := int64(0); k < int64(len(byRow)); k++ {
+		row := byRow[k]
+		if row == nil || row.name == "" || row.fn == nil {
+			return nil
+		}
+		out = append(out, *row)
+	}
+	return out
 }
